@@ -477,6 +477,20 @@ impl Server {
         Ok(true)
     }
     
+    /// A pop performed for a BLPOP/BRPOP client (at once, or when it is served later) changes the dataset without
+    /// passing through the write-command table: log it as the plain pop it was
+    fn log_blocking_pop(&self, db: usize, left: bool, key: &[u8]) {
+        if let Some(aof) = &self.aof_engine {
+            let entry = [
+                RespFrame::from_string(if left { "LPOP" } else { "RPOP" }),
+                RespFrame::from_bytes(key.to_vec()),
+            ];
+            if let Err(e) = aof.append_command_in_db(db, &entry) {
+                eprintln!("Failed to append to AOF: {}", e);
+            }
+        }
+    }
+    
     /// Wake up a specific blocked client with data
     fn wake_client(&self, wakeup: WakeupRequest) -> Result<()> {
         // Perform atomic pop based on the operation type
@@ -492,6 +506,10 @@ impl Server {
         // Critical fix: Only proceed if we actually got data
         // This prevents race conditions when multiple clients wake up simultaneously
         if let Some(popped_value) = value {
+            // The pop changed the dataset on behalf of the blocked client
+            let left = matches!(wakeup.op_type, super::connection::BlockingOp::BLPop);
+            self.log_blocking_pop(wakeup.db, left, &wakeup.key);
+            
             // Try to update connection state - use try_with_connection to avoid deadlock
             if let Some(result) = self.connections.with_connection(wakeup.conn_id, |conn| -> Result<()> {
                 // Only wake if still in blocked state
@@ -1290,7 +1308,7 @@ impl Server {
         // Log to AOF for write commands
         if let Some(aof) = &self.aof_engine {
             if self.is_write_command(&command_name) {
-                if let Err(e) = aof.append_command(parts) {
+                if let Err(e) = aof.append_command_in_db(db, parts) {
                     eprintln!("Failed to append to AOF: {}", e);
                 }
             }
@@ -3261,6 +3279,7 @@ impl Server {
         // Try non-blocking first (fast path)
         for key in &keys {
             if let Some(value) = self.storage.lpop(db_index, key)? {
+                self.log_blocking_pop(db_index, true, key);
                 return Ok(RespFrame::Array(Some(vec![
                     RespFrame::from_bytes(key.clone()),
                     RespFrame::from_bytes(value),
@@ -3331,6 +3350,7 @@ impl Server {
         // Try non-blocking first (fast path)  
         for key in &keys {
             if let Some(value) = self.storage.rpop(db_index, key)? {
+                self.log_blocking_pop(db_index, false, key);
                 return Ok(RespFrame::Array(Some(vec![
                     RespFrame::from_bytes(key.clone()),
                     RespFrame::from_bytes(value),
